@@ -343,6 +343,7 @@ pub fn step_push(c: &OCfg) {
             vassert!(o.p.filled == c.cap, "C15:push refused although there is room");
             vassert!(back.id as usize == id && gh.drops[id] == 0, "C15:refused try_push did not return the same future");
             vassert!(inc1 == inc0 && out1 == out0, "C15:refused push moved the position counters");
+            vassert!(inc1 == inc0 && out1 == out0, "C02:refused push moved the position counters: no output will ever carry the skipped position, later outputs are never released");
             vassert!(f.len() == o.len, "C15:refused push changed len");
             core::mem::forget(back);
             vcover!(true, "cover:push_refused");
